@@ -261,3 +261,263 @@ def _b_compile_outlines(d):
 CONTRACTS["ufo2ft.util:decomposeCompositeGlyph#all"].runtime = Runtime(_fam_cases, _b_decompose_all)
 CONTRACTS["ufo2ft.filters.decomposeComponents:DecomposeComponentsIFilter.filter#SXDIFilter"].runtime = Runtime(_fam_cases, _b_dfilter)
 CONTRACTS["ufo2ft._compilers.interpolatableTTFCompiler:InterpolatableTTFCompiler.compileOutlines"].runtime = Runtime(_co_cases, _b_compile_outlines)
+
+
+# =====================================================================================================
+# TTFInterpolatablePreProcessor.check_for_nonmatching_components: which composites have a 2x2 that differs between masters
+# =====================================================================================================
+# Two engine shims (requested in notes/C09.requests.md; both are pure extensions, every other case goes to the original code):
+#  (1) `f(*[<list comprehension>])`: Python unpacks the fully evaluated list, which is what it does for `f(*(<generator>))` too; the
+#      engine only hands the generator form to a model (`set.union` of contracts/c13.py), so the ListComp node is re-read as a GeneratorExp.
+#  (2) slice of a symbolic TUPLE value with constant bounds (`transformation[0:4]`): the tuple of the selected components.
+import ast as _ast  # noqa: E402
+
+from pyvc.ops import is_const as _is_const  # noqa: E402
+from pyvc.symex import Executor as _Ex  # noqa: E402
+
+if not getattr(_Ex.call, "_c09_shim", False):
+    _orig_call = _Ex.call
+
+    def _call(self, node, st):
+        if any(isinstance(a, _ast.Starred) and isinstance(a.value, _ast.ListComp) for a in node.args):
+            import copy as _copy
+
+            node2 = _copy.copy(node)
+            node2.args = [
+                _ast.copy_location(_ast.Starred(value=_ast.copy_location(_ast.GeneratorExp(elt=a.value.elt, generators=a.value.generators), a.value), ctx=a.ctx), a)
+                if isinstance(a, _ast.Starred) and isinstance(a.value, _ast.ListComp) else a
+                for a in node.args
+            ]
+            node = node2
+        return _orig_call(self, node, st)
+
+    _call._c09_shim = True
+    _Ex.call = _call
+
+if not getattr(_Ex.slice, "_c09_shim", False):
+    _orig_slice = _Ex.slice
+
+    def _slice(self, recv, sl, st, node):
+        if isinstance(recv.ty, T.Tuple) and not recv.is_py and sl.step is None:
+            lo = self.eval(sl.lower, st) if sl.lower else None
+            hi = self.eval(sl.upper, st) if sl.upper else None
+            if all(x is None or (_is_const(x) and isinstance(x.py, int)) for x in (lo, hi)):
+                ks = list(range(len(recv.ty.items)))[slice(lo and lo.py, hi and hi.py)]
+                nt = T.Tuple(*[recv.ty.items[k] for k in ks])
+                so = recv.ty.sort()
+                return Val(nt, nt.sort().mk(*[so.accessor(0, k)(recv.term) for k in ks]))
+        return _orig_slice(self, recv, sl, st, node)
+
+    _slice._c09_shim = True
+    _Ex.slice = _slice
+
+#  (3) filtered list comprehension `[f(x) for x in xs if c(x)]`: the engine states it by MEMBERSHIP only (seq.contains), from which no back
+#      end derives a position.  For contracts that ask for it (`comp_positions = True` on the contract object) two Skolem functions are added:
+#      pos: passing source position -> result position, src: result position -> passing source position, mutually inverse and strictly
+#      increasing (which is exactly Python's semantics: the result is the sub-sequence of the passing elements, in order).
+from pyvc.core import fresh_name as _fresh_name  # noqa: E402
+from pyvc.ops import z3bool as _z3bool  # noqa: E402
+
+if not getattr(_Ex.seq_comprehension, "_c09_shim", False):
+    _orig_seq_comprehension = _Ex.seq_comprehension
+
+    def _seq_comprehension(self, node, g, info, st):
+        rv = _orig_seq_comprehension(self, node, g, info, st)
+        if not g.ifs or not getattr(self.c, "comp_positions", False) or rv.is_py or not isinstance(rv.ty, T.List):
+            return rv
+        # re-evaluate filter and element at a symbolic source position (no new obligations: spec mode)
+        sub = st.copy()
+        i = z3.Int(_fresh_name("pi"))
+        guard = z3.And(i >= 0, i < info.n)
+        self.bind_target(g.target, info.item(i), sub, node)
+        save = self.spec_mode
+        self.spec_mode = True
+        self.qstack.append(([i], guard))
+        if hasattr(self, "qouter"):
+            self.qouter.append(st)
+        self.qnames.append([n.id for n in _ast.walk(g.target) if isinstance(n, _ast.Name)])
+        try:
+            sub.pc.append(guard)
+            for f in info.facts(i):
+                sub.pc.append(f)
+            conds = [_z3bool(self.cond(c, sub)) for c in g.ifs]
+            for c in conds:
+                sub.pc.append(c)
+            body = self.eval(node.elt, sub)
+        finally:
+            self.qstack.pop()
+            if hasattr(self, "qouter"):
+                self.qouter.pop()
+            self.qnames.pop()
+            self.spec_mode = save
+        from pyvc.core import coerce as _coerce
+
+        body = _coerce(body, rv.ty.elem)
+        r = rv.term
+        passing = z3.And(guard, *conds)
+        posf = fresh(Map(INT, INT), "cpos")
+        srcf = fresh(Map(INT, INT), "csrc")
+        pos = lambda x: z3.Select(posf, x)  # noqa: E731
+        src = lambda x: z3.Select(srcf, x)  # noqa: E731
+        j = z3.Int(_fresh_name("pj"))
+        i2 = z3.Int(_fresh_name("pi2"))
+        st.assume(z3.ForAll([i], z3.Implies(passing, z3.And(pos(i) >= 0, pos(i) < z3.Length(r), r[pos(i)] == lift(body), src(pos(i)) == i))))
+        inr = z3.And(j >= 0, j < z3.Length(r))
+        st.assume(z3.ForAll([j], z3.Implies(inr, z3.And(z3.substitute(passing, (i, src(j))), r[j] == z3.substitute(lift(body), (i, src(j))), pos(src(j)) == j))))
+        st.assume(z3.ForAll([j, i2], z3.Implies(z3.And(j >= 0, j < i2, i2 < z3.Length(r)), src(j) < src(i2))))
+        # the two position maps are visible to hints / invariants of the contract as <target>__pos / <target>__src (specification-only names)
+        tgt = getattr(self, "_c09_assign_target", None)
+        if tgt:
+            st.env[tgt + "__pos"] = Val(Map(INT, INT), posf)
+            st.env[tgt + "__src"] = Val(Map(INT, INT), srcf)
+        return rv
+
+    _seq_comprehension._c09_shim = True
+    _Ex.seq_comprehension = _seq_comprehension
+    _orig_s_assign = _Ex.s_Assign
+
+    def _s_assign(self, node, st):
+        save = getattr(self, "_c09_assign_target", None)
+        self._c09_assign_target = node.targets[0].id if len(node.targets) == 1 and isinstance(node.targets[0], _ast.Name) and isinstance(node.value, _ast.ListComp) else None
+        try:
+            return _orig_s_assign(self, node, st)
+        finally:
+            self._c09_assign_target = save
+
+    _Ex.s_Assign = _s_assign
+
+class _LiveMap:
+    """run-time value of a heap view: object -> f(object), read on demand (old() keeps it as it is: this function writes no glyph)"""
+
+    def __init__(self, f):
+        self.f = f
+
+    def __getitem__(self, o):
+        from pyvc.rt import unwrap
+
+        return self.f(unwrap(o))
+
+    def __deepcopy__(self, memo):
+        return self
+
+
+def _heap_map(clsname, field, kty, vty):
+    return lambda ex, st, self: Val(Map(kty, vty), ex.field_array(st, clsname, field))
+
+
+XF6 = c13.XF6
+HG_T = Map(Ref("SXGlyphSet"), c13.GLYPHS)
+HC_T = Map(Ref("SXGlyph"), List(Ref("SXComponent")))
+HT_T = Map(Ref("SXComponent"), XF6)
+cls(
+    "SXTTFPre",
+    fields={"glyphSets": List(Ref("SXGlyphSet"))},
+    derived={
+        "heap_glyphs": _heap_map("SXGlyphSet", "glyphs", Ref("SXGlyphSet"), c13.GLYPHS),
+        "heap_components": _heap_map("SXGlyph", "components", Ref("SXGlyph"), List(Ref("SXComponent"))),
+        "heap_transformations": _heap_map("SXComponent", "transformation", Ref("SXComponent"), XF6),
+    },
+    views={
+        "heap_glyphs": lambda o: _LiveMap(lambda gs: dict(gs)),
+        "heap_components": lambda o: _LiveMap(lambda g: list(g.components)),
+        "heap_transformations": lambda o: _LiveMap(lambda c: tuple(c.transformation)),
+    },
+    repo="ufo2ft.preProcessor:TTFInterpolatablePreProcessor",
+    notes="TTFInterpolatablePreProcessor instance: glyphSets = one glyph set per master; heap_* = the glyph sets' content, the glyphs' component "
+    "lists and the components' transformations as maps (arguments of the specification functions below)",
+)
+GSL = List(Ref("SXGlyphSet"))
+
+
+@specfn(BOOL, GS=GSL, HG=HG_T, HC=HC_T, g=STR, i=INT)
+def comp_index_everywhere(GS, HG, HC, g, i):
+    """i is a component index of glyph g in EVERY master that has g (the code only looks at indices below the smallest component count)"""
+    return i >= 0 and all(implies(g in HG[gs], i < len(HC[HG[gs][g]])) for gs in GS)
+
+
+# The next two are written with a (never taken) recursive call so that the engine treats them as NAMED predicates: an application under a
+# quantifier stays one atom, an application to the glyph at hand is given its definition.  (`z` is always 0.)
+@specfn(BOOL, GS=GSL, HG=HG_T, HC=HC_T, HT=HT_T, g=STR, i=INT, z=INT)
+def twobytwo_differs(GS, HG, HC, HT, g, i, z):
+    """two masters that have g disagree on the 2x2 part (xx, xy, yx, yy) of its i-th component; offsets play no role"""
+    if z > 0:
+        return twobytwo_differs(GS, HG, HC, HT, g, i, z - 1)
+    if i < 0:
+        return False  # not a component index (Python would count from the end)
+    return any(any(g in HG[ga] and g in HG[gb] and HT[HC[HG[ga][g]][i]][0:4] != HT[HC[HG[gb][g]][i]][0:4] for gb in GS) for ga in GS)
+
+
+@specfn(BOOL, GS=GSL, HG=HG_T, HC=HC_T, HT=HT_T, g=STR, z=INT)
+def nonmatching(GS, HG, HC, HT, g, z):
+    """some component index shared by all masters of g carries different 2x2 matrices: a variable glyf component cannot express that"""
+    if z > 0:
+        return nonmatching(GS, HG, HC, HT, g, z - 1)
+    return any(g in HG[ga] and any(comp_index_everywhere(GS, HG, HC, g, i) and twobytwo_differs(GS, HG, HC, HT, g, i, 0) for i in range(len(HC[HG[ga][g]]))) for ga in GS)
+
+
+_PGS = "self.glyphSets"
+_HV = "self.heap_glyphs, self.heap_components, self.heap_transformations"
+_NM = "nonmatching(" + _PGS + ", " + _HV + ", {}, 0)"
+_DIFF = "twobytwo_differs(" + _PGS + ", " + _HV + ", {}, {}, 0)"
+contract(
+    "ufo2ft.preProcessor:TTFInterpolatablePreProcessor.check_for_nonmatching_components",
+    props=["C09"],
+    params={"self": Ref("SXTTFPre"), "needs_decomposition": Set(STR)},
+    requires=[f"len({_PGS}) > 0"],  # set.union(*[...]) needs at least one glyph set (BaseInterpolatablePreProcessor is built from >= 1 UFO)
+    ensures={
+        # names already scheduled stay scheduled
+        "monotone": "all(n in needs_decomposition for n in old(needs_decomposition))",
+        # a glyph of ANY master is scheduled iff it was already, or its 2x2 differs between masters at a shared component index
+        "scheduled-iff-nonmatching": f"all(all(iff(n in needs_decomposition, n in old(needs_decomposition) or {_NM.format('n')}) for n in gs.keyset) for gs in {_PGS})",
+        # nothing else is added
+        "only-glyph-names": f"all(n in old(needs_decomposition) or any(n in gs.keyset for gs in {_PGS}) for n in needs_decomposition)",
+    },
+    canaries={"schedules-every-composite": f"all(all(implies(len(gs[n].components) > 0, n in needs_decomposition) for n in gs.keyset) for gs in {_PGS})", "adds-nothing": "needs_decomposition == old(needs_decomposition)"},
+    modifies=["needs_decomposition"],
+    globals=dict(c13._IHELPERS),
+    locals={"layers": List(Ref("SXGlyph")), "component_counts": List(INT)},
+    ghost_vars={"ND0": (Set(STR), "needs_decomposition"), "NDI": (Set(STR), "needs_decomposition")},
+    ghost={"component_counts = [len(layer.components) for layer in layers]": ["NDI = needs_decomposition"]},
+    alias_ok=("needs_decomposition",),  # the ghost snapshot above is a value, not a second holder of the set
+    # stepping stones (each is proved where it stands, then used): they tie the named predicates, applied to the glyph at hand, to the
+    # lists the code builds
+    hints={
+        # the code's test at one component index is the specification's "two masters disagree on the 2x2 there"
+        "transforms = [layer.components[component_index].transformation[0:4] for layer in layers]": [
+            # (position k of `layers` / `transforms` belongs to master layers__src[k]; master a, if it has the glyph, sits at position layers__pos[a])
+            f"all(0 <= layers__src[k] and layers__src[k] < len({_PGS}) and glyph in {_PGS}[layers__src[k]].keyset"
+            f" and transforms[k] == {_PGS}[layers__src[k]][glyph].components[component_index].transformation[0:4] for k in range(len(transforms)))",
+            f"all(implies(glyph in {_PGS}[a].keyset, 0 <= layers__pos[a] and layers__pos[a] < len(transforms)"
+            f" and transforms[layers__pos[a]] == {_PGS}[a][glyph].components[component_index].transformation[0:4]) for a in range(len({_PGS})))",
+            f"implies(any(transforms[k] != transforms[0] for k in range(len(transforms))), {_DIFF.format('glyph', 'component_index')})",
+            f"implies({_DIFF.format('glyph', 'component_index')}, any(transforms[k] != transforms[0] for k in range(len(transforms))))",
+        ],
+        # no master has a component: nothing can differ
+        "component_counts = [len(layer.components) for layer in layers]": [
+            f"implies(all(component_counts[k] == 0 for k in range(len(component_counts))), not {_NM.format('glyph')})"
+        ],
+        # after the scan of the shared component indices: scheduled iff some shared index carries different 2x2 matrices
+        "for component_index in range(0, min(component_counts)):": [
+            f"implies(glyph in needs_decomposition, {_NM.format('glyph')})",
+            f"implies(glyph not in needs_decomposition, not {_NM.format('glyph')})",
+        ],
+    },
+    loops={
+        "for glyph in all_glyphs": Loop(
+            done="D",
+            invariants={
+                "mono": "all(n in needs_decomposition for n in ND0)",
+                "sound": f"all(n in ND0 or (n in D and {_NM.format('n')}) for n in needs_decomposition)",
+                "complete": f"all(implies({_NM.format('n')}, n in needs_decomposition) for n in D)",
+            },
+        ),
+        "for component_index in range(0, min(component_counts))": Loop(
+            index="ci",
+            invariants={
+                "unchanged": "needs_decomposition == NDI",
+                "equal-so-far": f"all(not {_DIFF.format('glyph', 'i')} for i in range(ci))",
+            },
+        ),
+    },
+)
+CONTRACTS["ufo2ft.preProcessor:TTFInterpolatablePreProcessor.check_for_nonmatching_components"].comp_positions = True
